@@ -360,3 +360,37 @@ Definition create_view (files : list (list N * list N)) : outcome (list (list N 
 (* the input file as the reader sees it: MultiGzDecoder when the extension is gz *)
 Definition file_bytes (gunzip : list N -> option (list N)) (name data : list N) : option (list N) :=
   if is_gz_name name then gunzip data else Some data.
+
+(* ------------------------------------------------------------------ vocabulary of the theorems (specification side) *)
+Definition read_back (s : list N) : list N :=
+  map (fun c => if is_letter c then norm_letter c else 78) (filter keep s).
+Definition ends_lf (a : list N) : Prop := a = [] \/ exists a0 c, a = a0 ++ [c] /\ is_eol c = true.
+Definition eol_ok (eol : list N) : Prop := eol = eol_lf \/ eol = eol_crlf.
+Definition starts_gt (t : list N) : Prop := t = [] \/ exists t', t = record_marker_byte :: t'.
+Definition is_pansn (id : list N) : bool := pansn_min_parts <=? lenN (split_on pansn_sep_byte id).
+Definition all_pansn (t : list N) : Prop :=
+  forall rs, pushed t = Ok rs -> Forall (fun r => is_pansn (fst r) = true) rs.
+Definition file_ok (t : list N) : Prop := ends_lf t /\ starts_gt t.
+Definition archive : Type := list (list N * list (list N * list N)).
+
+Fixpoint contigs_of (arch : archive) (s : list N) : list (list N * list N) :=
+  match arch with
+  | [] => []
+  | (s', cs) :: a => if bytes_eqb s' s then cs else contigs_of a s
+  end.
+Definition has_contig (arch : archive) (s n : list N) : bool :=
+  existsb (fun x => bytes_eqb (fst x) n) (contigs_of arch s).
+Definition of_sample (s : list N) (cs : list contig3) : list (list N * list N) :=
+  map (fun x => (snd (fst x), snd x)) (filter (fun x => bytes_eqb (fst (fst x)) s) cs).
+Definition wanted (r : list N * list N) : bool := negb (is_nil (rec_name r)) && negb (is_nil (snd r)).
+Definition as_contig (r : list N * list N) : list N * list N := (rec_name r, convert (snd r)).
+Definition has_named_base (r : list N * list N) : bool := negb (is_nil (rec_name r)) && rec_has_base r.
+
+(* one input file as create consumes it: bytes through the (possibly gzip) reader, then the contig stream *)
+Definition input_stream (gunzip : list N -> option (list N)) (name data : list N) : outcome (list contig3) :=
+  match file_bytes gunzip name data with
+  | Some t => contig_stream name t
+  | None => Err
+  end.
+Definition ext_fa : list N := [46; 102; 97].                    (* ".fa" *)
+Definition ext_fa_gz : list N := [46; 102; 97; 46; 103; 122].   (* ".fa.gz" *)
